@@ -2521,6 +2521,67 @@ impl<C: Crypto> TransportRunner<'_, C> {
     }
 }
 
+/// Verification hooks (feature `verif`, C10 node level): one iteration of the receive loop and the
+/// two RX sweeps on the REAL RX packet slot of the transport (not on a stand-in), so that real
+/// `Exchange::accept` / `Exchange::recv` calls see what these steps leave behind.
+#[cfg(feature = "verif")]
+impl<C: Crypto> TransportRunner<'_, C> {
+    /// The body of the loop of `process_rx` for one datagram received from `peer`: take the RX
+    /// slot only if it is empty (`None` = a message is waiting, nothing was touched), copy the
+    /// datagram in, run `handle_rx_packet`, and leave the message in the slot exactly when
+    /// `process_rx` does (`Ok(true)`).
+    pub async fn verif_process_rx_datagram<S>(
+        &self,
+        peer: Address,
+        data: &[u8],
+        send: S,
+    ) -> Option<Result<bool, Error>>
+    where
+        S: NetworkSend,
+    {
+        let guard = self
+            .matter
+            .transport
+            .rx
+            .try_lock_if(|packet| packet.buf.is_empty())
+            .ok()?;
+        let mut rx = PacketAccess(guard, false);
+        rx.clear_on_drop(true); // In case of error, or if the future is dropped
+
+        rx.buf.clear();
+        if rx.buf.extend_from_slice(data).is_err() {
+            return Some(Err(ErrorCode::BufferTooSmall.into()));
+        }
+
+        rx.peer = peer;
+        rx.payload_start = 0;
+
+        let send = IfMutex::new(send);
+
+        let result = self.handle_rx_packet(&mut rx, &send).await;
+
+        if matches!(result, Ok(true)) {
+            // Leave the packet in place for accepting by responders
+            rx.clear_on_drop(false);
+        }
+
+        Some(result)
+    }
+
+    /// `handle_accept_timeout_rx_packet` (`orphan == false`) or `handle_orphaned_rx_packet`
+    /// (`orphan == true`) on the real RX slot, as `process_accept_timeout_rx` /
+    /// `process_orphaned_rx` do when they are polled. `None` = somebody holds the slot.
+    pub fn verif_sweep_real_rx(&self, orphan: bool) -> Option<bool> {
+        let mut guard = self.matter.transport.rx.try_lock_if(|_| true).ok()?;
+
+        Some(if orphan {
+            self.handle_orphaned_rx_packet(&mut guard)
+        } else {
+            self.handle_accept_timeout_rx_packet(&mut guard)
+        })
+    }
+}
+
 #[derive(Copy, Clone, Default, PartialEq, Eq, Debug, Hash)]
 #[cfg_attr(feature = "defmt", derive(defmt::Format))]
 pub(crate) enum TxPayloadState {
